@@ -364,6 +364,7 @@ func sharingPart(c *vh.Ctx) {
 		c.Hit("share:generated-program")
 		shareCheck(c, ep, c.N(4, 8), c.N(2, 6))
 	}
+	envSharing(c)
 }
 
 // raceChild: the sharing part again in a binary built with -race; the parent reads the race reports from its stderr.
@@ -442,8 +443,9 @@ func runC19(c *vh.Ctx) {
 		"functions, 24 globals + 10 mutually recursive functions, repeated constants, two unused comma expressions) parsed 50x/300x, and " +
 		"the structured programs of C16's generators parsed 8x/30x, and invalid programs with 2-5 independent error sites of 26 kinds (parser, " +
 		"end-of-parse comma-grouping check, resolver) on different lines with random indentation parsed 50x/300x; sharing: 8 corpus programs (arrays, recursion, dynamic regexes, constants, field " +
-		"assignment, natives, getline, range patterns) x inputs x -v settings and accepted generated programs, each executed from 4-16 " +
-		"goroutines, also under the race detector; non-trivial = a source with at least one function (determinism) / every sharing case")
+		"assignment, natives, getline, range patterns) x inputs x -v settings, accepted generated programs, and 5 programs using system(), " +
+		"command pipes in both directions, output/input files, ENVIRON, srand/rand, printf, dynamic regexes with a distinct identity per " +
+		"execution, each executed from 4-16 goroutines, also under the race detector; non-trivial = a source with at least one function (determinism) / every sharing case")
 
 	// ---- determinism ----
 	sources := corpusSources(c)
